@@ -184,6 +184,9 @@ def run_job(task):
             res['inconclusive'].append('forked explorers did not finish before the deadline')
         else:
             merge_parts(res, parts)
+        if getattr(ctl, 'crashed', 0):
+            res['harness_errors'].append(f'{ctl.crashed} forked explorer(s) died without reporting (their subtrees are unexplored)')
+            res['exhausted'] = False
         import shutil
         shutil.rmtree(ctl.scratch, ignore_errors=True)
     for label in job.get('must_reach', ()):
